@@ -715,6 +715,16 @@ class Threads(EngineBase):
                                                        "pid": rng.choice(
                                                            [2, 3, 4])}})
                 threads.append(ops)
+        elif prog == "C02t" and rng.random() < 0.3:
+            # targeted shape: one thread is inside is_running() while the
+            # other makes the PID change hands and asks too
+            nthreads = 2
+            threads = [[{"op": "is_running"}],
+                       [{"op": "ev", "ev": {"ev": "reuse", "pid": T}},
+                        {"op": "is_running"}]]
+            if rng.random() < 0.3:
+                threads[0].append({"op": "is_running"})
+            shape = {"plain": 0, "kind": "flag_race"}
         elif prog == "C02t":
             # several threads ask is_running() / == on ONE object; at most
             # one of them makes the process exit (or the PID change hands)
@@ -779,7 +789,8 @@ class Threads(EngineBase):
                 threads.append(ops)
         plan = {"prog": prog, "world": world, "threads": threads,
                 "preempt": [], "ops": []}
-        if prog == "C16t" and len(threads) == 2 and "shape" in locals():
+        if prog in ("C16t", "C02t") and len(threads) == 2 and \
+                "shape" in locals():
             plan["shape"] = shape
         if prog == "C04t":
             files = {}
@@ -1544,12 +1555,23 @@ class Threads(EngineBase):
                 # wrapper, the block thread somewhere later, and back
                 tb = shape["plain"]
                 ta = 1 - tb
+                word = "wrapper" if shape.get("kind") != "flag_race" \
+                    else "is_running"
                 wsites = [i for i, s_ in enumerate(sites[tb])
-                          if "wrapper" in str(s_)] or list(
-                              range(len(sites[tb])))
+                          if word in str(s_) or (
+                              word == "is_running" and "acc:" in str(s_))] \
+                    or list(range(len(sites[tb])))
+                at_b = rng.randrange(len(sites[ta]))
+                if shape.get("kind") == "flag_race":
+                    # thread 0 stopped after its probe has read the old
+                    # owner's record, thread 1 near the end of its call
+                    reads_ = [i for i, s_ in enumerate(sites[tb])
+                              if s_ == "acc:read"]
+                    lo_ = reads_[0] + 1 if reads_ else 0
+                    wsites = list(range(lo_, len(sites[tb]))) or wsites
+                    at_b = max(0, len(sites[ta]) - rng.randrange(1, 14))
                 pre = [{"t": tb, "at": rng.choice(wsites), "to": ta},
-                       {"t": ta, "at": rng.randrange(len(sites[ta])),
-                        "to": tb}]
+                       {"t": ta, "at": at_b, "to": tb}]
                 if rng.random() < 0.3:
                     pre.append({"t": tb, "at": rng.choice(wsites), "to": ta})
                 npre = 0
